@@ -832,12 +832,13 @@ class int_neq_false_conv(Conv):
             raise ConvException(str(tm))
         
         lhs_value = int_eval(tm.lhs)
+        pt = refl(tm).on_rhs(arg1_conv(int_eval_conv()), arg_conv(int_eval_conv()))
         if lhs_value > 0:
             premise_pt = ProofTerm("int_const_ineq", greater(IntType)(Int(lhs_value), Int(0)))
-            return apply_theorem("int_pos_neq_zero", premise_pt)
+            return pt.transitive(apply_theorem("int_pos_neq_zero", premise_pt))
         else:
             premise_pt = ProofTerm("int_const_ineq", less(IntType)(Int(lhs_value), Int(0)))
-            return apply_theorem("int_neg_neq_zero", premise_pt)
+            return pt.transitive(apply_theorem("int_neg_neq_zero", premise_pt))
 
 class int_compare_to_real(Conv):
     """Given an integer comparison, convert it to a real comparison.
